@@ -74,6 +74,20 @@ LEVEL = "exploration"
 # ------------------------------------------------------------------------------------------------------------------------
 UUID_STR = "1f4ffb55-022e-49fb-8c63-6f159aed9b24"
 
+# "wrapped by the printer" x "looks like the format's own syntax": values long enough for the >100-column wrap, and values with
+# >= 5 newlines (parenthesised one-literal-per-line form), that carry the meta characters in the MIDDLE -- once the parser has
+# joined the continuation lines the value starts with "(", not with a quote, so anything keyed on the first character or applied
+# to the whole joined line (comment stripping, sniffing, operator look-alikes) sees the inside of the string.
+_META_MIX = "=| x =$ 1+1 [[AGENT_ID]] <1,2,3> " + UUID_STR + " ( ) a-b-c"
+_WRAPPED_META: List[Tuple[str, str]] = [
+    ("long-wrap-space-hash", "lorem ipsum dolor " * 4 + "here # comes a comment look-alike " + "sit amet " * 6 + "end"),
+    ("long-wrap-tab-hash", "lorem ipsum dolor " * 4 + "tab\t# comes a comment look-alike " + "sit amet " * 6 + "end"),
+    ("long-wrap-meta-mix", "lorem ipsum dolor " * 3 + _META_MIX + " " + "sit amet " * 5 + "trailing \\"),
+    ("multiline5-space-hash", "l1\nl2 # not a comment\nl3\nl4 #\nl5\nl6 # end"),
+    ("multiline5-tab-hash", "l1\nl2\t# not a comment\nl3\nl4\nl5\t#\nl6"),
+    ("multiline5-meta-mix", "l1 =| x\nl2 =$ 1+1 \\\nl3 [[AGENT_ID]] \\\n<1,2,3>\n" + UUID_STR + "\n( a-b-c\n) end"),
+]
+
 TORTURE_STR: List[Tuple[str, str]] = [
     ("multiline5", "l1\nl2\nl3\nl4\nl5\nl6"),
     ("multiline5-trailing-newline", "a\n\n\n\n\n"),
@@ -119,7 +133,7 @@ TORTURE_STR: List[Tuple[str, str]] = [
     ("astral", "smile \U0001f600 ✓"),
     ("leading-NUL", "\x00x"),
     ("long-unicode-wrap", "héllo wörld ✓ " * 12),
-]
+] + [(l, v) for l, v in _WRAPPED_META]
 
 TORTURE_BYTES: List[Tuple[str, bytes]] = [
     ("trailing-NULs", b"abc\x00\x00"),
@@ -146,7 +160,7 @@ TORTURE_BYTES: List[Tuple[str, bytes]] = [
     ("bytes-long-multiline", (b"line of bytes number one " * 5 + b"\n") * 6),
     ("bytes-crlf", b"a\r\nb\r\nc\r\nd\r\ne\r\nf"),
     ("bytes-inner-NUL", b"a\x00b"),
-]
+] + [("bytes-" + l, v.encode("ascii")) for l, v in _WRAPPED_META]
 
 FIXED_PATTERNS: List[Tuple[str, bytes]] = [
     ("fixed-newlines", b"\n"), ("fixed-lines", b"a\n"), ("fixed-backslashes", b"\\"), ("fixed-quotes", b"'\""),
